@@ -215,6 +215,35 @@ def _slice_expr(e, env) -> str:
     return f"(pySlice data {lo} {hi})"
 
 
+def _assigned_names(fn) -> dict:
+    """how often each plain name is (re)bound anywhere in the function (assignments, tuple targets, aug-assign, for, with)"""
+    cnt: dict[str, int] = {}
+
+    def tgt(t):
+        if isinstance(t, ast.Name):
+            cnt[t.id] = cnt.get(t.id, 0) + 1
+        elif isinstance(t, (ast.Tuple, ast.List)):
+            for e in t.elts:
+                tgt(e)
+        elif isinstance(t, ast.Starred):
+            tgt(t.value)
+    for n in ast.walk(fn):
+        if isinstance(n, ast.Assign):
+            for t in n.targets:
+                tgt(t)
+        elif isinstance(n, (ast.AugAssign, ast.AnnAssign)):
+            tgt(n.target)
+        elif isinstance(n, (ast.For, ast.AsyncFor)):
+            tgt(n.target)
+        elif isinstance(n, ast.NamedExpr):
+            tgt(n.target)
+        elif isinstance(n, (ast.With, ast.AsyncWith)):
+            for it in n.items:
+                if it.optional_vars is not None:
+                    tgt(it.optional_vars)
+    return cnt
+
+
 # ------------------------------------------------------------------------------------------------ B. _verify_signature
 def translate_verify_signature(tree) -> str:
     fn = _func(tree, "_verify_signature", "EZPackOverlay")
@@ -455,6 +484,11 @@ def translate_on_packet() -> str:
         raise TranslatorError("Community.on_packet: `except Exception` around the handler call not found")
     if "handler(source_address, data)" not in _norm(tr.body[0]):
         raise TranslatorError("Community.on_packet: handler is not called with (source_address, data)")
+    names = _assigned_names(fn)
+    if names.get("data", 0) != 1 or names.get("source_address", 0) != 1 or names.get("msg_id", 0) != 1 \
+            or names.get("handler", 0) != 1:
+        raise TranslatorError(f"Community.on_packet: data/source_address/msg_id/handler are re-bound between the matched "
+                              f"statements: {dict((k, names.get(k, 0)) for k in ('data', 'source_address', 'msg_id', 'handler'))}")
     return ("/-- generated from Community.on_packet: `if self._prefix != data[:22]: return`, `msg_id = data[22]` -/\n"
             "def prefixLen : Nat := 22\ndef msgIdOffset : Nat := 22")
 
@@ -484,6 +518,15 @@ def translate_disc_raw() -> str:
         raise TranslatorError("on_old_introduction_request: peer is no longer built from auth.public_key_bin")
     if "self.network.add_verified_peer(peer)" not in src:
         raise TranslatorError("on_old_introduction_request: add_verified_peer(peer) not found")
+    names = _assigned_names(fn)
+    if names.get("auth", 0) != 2 or names.get("peer", 0) != 1 or names.get("data", 0) != 0 \
+            or names.get("source_address", 0) != 0:
+        raise TranslatorError("on_old_introduction_request: auth/peer/data/source_address are re-bound besides the matched "
+                              "statements")
+    i_try = next(i for i, st in enumerate(_stmts(fn)) if isinstance(st, ast.Try))
+    if not (i_try < src.index("peer = Peer(auth.public_key_bin, source_address)")
+            < src.index("self.network.add_verified_peer(peer)")):
+        raise TranslatorError("on_old_introduction_request: order of unpack / Peer(...) / add_verified_peer changed")
     others = [c for c in ast.walk(fn) if isinstance(c, ast.Call) and "_ez_unpack" in _norm(c.func)]
     if len(others) != 2:
         raise TranslatorError("on_old_introduction_request: unexpected additional unpack calls")
